@@ -4,6 +4,7 @@ import Anysystem.Proofs.SimStepThms
 import Anysystem.Proofs.SimStepFns
 import Anysystem.Proofs.SimTimeOrder
 import Anysystem.Proofs.SimLogTimes
+import Anysystem.Proofs.SimStepTimeout
 /-!
 # C06 — Simulated time: delays, ordering, clocks and stepping are exact
 
@@ -79,5 +80,24 @@ namespace Anysystem
 #check @Sim.TimeInvs.stepUntilLocalMax
 #check @SimLogTimesDemo.backwards_breaks
 #check @SimLogTimesDemo.runAll_invs
+
+/- `step_until_local_message_timeout` (`Proofs/SimStepTimeout.lean`; the deadline is simulation time): the run is k successful
+   steps during which the process's outbox was empty and the clock before the deadline at every read; it returns the non-empty
+   outbox (cleared, nothing else changed) while the clock is before the deadline, and otherwise gives up — either because the
+   deadline has been reached (then NOTHING is read or cleared: every process's outbox is what it was after the last step) or
+   because no event is left; the clock is never set to the deadline (it can overshoot by the step that crossed it) and never
+   decreases; the invariants `TimeInvs`, `LogInv`, `TraceInv` are kept. -/
+#check @Sim.stepUntilLocalTimeout_some
+#check @Sim.stepUntilLocalTimeout_some_frame
+#check @Sim.stepUntilLocalTimeout_none
+#check @Sim.stepUntilLocalTimeout_none_keeps_outboxes
+#check @Sim.stepUntilLocalTimeout_expired
+#check @Sim.stepUntilLocalTimeout_clock_le
+#check @Sim.stepUntilLocalTimeout_none_deadline
+#check @Sim.TimeInvs.stepUntilLocalTimeout
+#check @Sim.LogInv.stepUntilLocalTimeout
+#check @Sim.TraceInv.stepUntilLocalTimeout
+#check @SimStepTimeoutDemo.gives_up_past_deadline
+#check @SimStepTimeoutDemo.then_read_returns_it
 
 end Anysystem
